@@ -35,8 +35,13 @@ void readbytefile_(char *srcFilePath, int *len, unsigned char *bytes, size_t *by
         s[i]=srcFilePath[i];
     s[*len]='\0';
     unsigned char *tmp_bytes = readByteData(s, byteLength, &ierr);
-    memcpy(bytes, tmp_bytes, *byteLength);
-    free(tmp_bytes);
+    if(tmp_bytes==NULL) //missing or unreadable file: nothing was read
+        *byteLength = 0;
+    else
+    {
+        memcpy(bytes, tmp_bytes, *byteLength);
+        free(tmp_bytes);
+    }
     free(s);
 }
 
@@ -50,8 +55,13 @@ void readdoublefile_(char *srcFilePath, int *len, double *data, size_t *nbEle)
         s[i]=srcFilePath[i];
     s[*len]='\0';
 	double *tmp_data = readDoubleData(s, nbEle, &ierr);
-	memcpy(data, tmp_data, *nbEle);
-	free(tmp_data);
+	if(tmp_data==NULL) //missing or unreadable file: nothing was read
+		*nbEle = 0;
+	else
+	{
+		memcpy(data, tmp_data, *nbEle*sizeof(double)); //nbEle counts elements, not bytes
+		free(tmp_data);
+	}
 	free(s);
 }
 
@@ -65,8 +75,13 @@ void readfloatfile_(char *srcFilePath, int *len, float *data, size_t *nbEle)
         s[i]=srcFilePath[i];
     s[*len]='\0';
 	float *tmp_data = readFloatData(s, nbEle, &ierr);
-	memcpy(data, tmp_data, *nbEle);
-	free(tmp_data);
+	if(tmp_data==NULL) //missing or unreadable file: nothing was read
+		*nbEle = 0;
+	else
+	{
+		memcpy(data, tmp_data, *nbEle*sizeof(float)); //nbEle counts elements, not bytes
+		free(tmp_data);
+	}
 	free(s);
 }
 
